@@ -1515,6 +1515,7 @@ void ExpandLine(char const* TokNam, unsigned TokenNum, as_dynstr_t* p_str) {
 
 void KillCtrl(char* Line) {
     char* z;
+    char  Quote = '\0';
 
     if (*(z = Line) == '\0') {
         return;
@@ -1522,7 +1523,14 @@ void KillCtrl(char* Line) {
     do {
         if (*z == '\0')
             ;
-        else if (*z == Char_HT) {
+        else if (Quote != '\0') {
+            /* string and character constants stay as they were written */
+            if (*z == Quote) {
+                Quote = '\0';
+            }
+        } else if ((*z == '"') || (*z == '\'')) {
+            Quote = *z;
+        } else if (*z == Char_HT) {
             strmov(z, z + 1);
             strprep(z, Blanks(8 - ((z - Line) % 8)));
         } else if ((*z & 0xe0) == 0) {
